@@ -6,10 +6,15 @@ from pyvc import spec as SP
 from pyvc.sym import Sym
 
 META = {
-    "explanation": "equilibrium_quotient, vec_dot_vec/mat_dot_vec, prodpow, EqSystem.stoichs/eq_constants/stoichs_constants (no rref), and the residual vectors NumSysLin.f, NumSysSquare.f, NumSysLog.f are proved entry by entry (Q_i/K_i - 1, conservation rows B(y - y0), A ln c - ln K, conservation of exp(y)) for every concentration, initial state and constant at fixed homogeneous systems; zero-iff-equilibrium then follows in SMT; the log form's equivalence to the product form is the standard log-product law (5.3)",
-    "trusted_base": ["numpy object-array arithmetic (5.2)", "pyneqsys.symbolic.linear_exprs(A, x, b, rref=False) = [sum_j A_ij x_j - b_i] (5.6; read in the installed source)", "exp/log real functions (5.3)"],
-    "not_decided": ["row-reduced configurations (pyneqsys linear_rref, sympy rref), NumSysLinRel / NumSysLinTanh (sympy Min/Piecewise/tanh): bounded stand-in"],
-    "assumptions": ["system shapes fixed per harness (two homogeneous systems: water/ammonia, and a 2:1 complexation with a spectator)"],
+    "explanation": "equilibrium_quotient, vec_dot_vec/mat_dot_vec, prodpow, EqSystem.stoichs/eq_constants/stoichs_constants (no rref), and the residual vectors NumSysLin.f, NumSysSquare.f, NumSysLog.f are proved entry by entry (Q_i/K_i - 1, conservation rows B(y - y0), A ln c - ln K, conservation of exp(y)) for every concentration, initial state and constant at fixed homogeneous systems; zero-iff-equilibrium then follows in SMT; the log form's equivalence to the product form is the standard log-product law (5.3).  Row-reduced configurations and the systems handed to pyneqsys by get_neqsys are run natively at exact equilibrium states of four systems (zero there; non-zero at states violating only a quotient / only conservation; Jacobian rank = rank A + rank B, so no independent equation is lost by a reduction); every expected matrix is hand-written (HAND)",
+    "trusted_base": ["numpy object-array arithmetic (5.2)", "pyneqsys.symbolic.linear_exprs(A, x, b, rref=False) = [sum_j A_ij x_j - b_i] (5.6; read in the installed source)", "exp/log real functions (5.3)",
+                     "pyneqsys SymbolicSys.f_cb / ChainedNeqSys.neqsystems / ConditionalNeqSys.neqsys_factory as the access path to what the root finder is offered", "numpy SVD for the rank of a 30-digit Jacobian"],
+    "not_decided": ["row-reduced configurations (pyneqsys linear_rref, sympy rref), NumSysLinRel / NumSysLinTanh (sympy Min/Piecewise/tanh): bounded stand-in",
+                    "rref_equil=True with linearly dependent reactions (system 'complex') is the known finding F-C07a, whose wildcard also covers the passing obligations of these six configurations; rref_equil=True is verified on 'ammonia', 'two_step_complexation' (spectator, dependent conservation rows) and 'ozone' (fractional exponents, pivots other than +-1, negative square-root variables)"],
+    "assumptions": ["system shapes fixed per harness (symbolic: two homogeneous systems, water/ammonia and a 2:1 complexation with a spectator; native: these, the complexation without its dependent reaction, and O/O2/O3)",
+                    "'homogeneous' is read as 'every species in the solution phase' (phase index 0: no suffix, or (aq)); a system written wholly with (g), (l) or (s) suffixes is taken by EqSystem as 'nothing in solution' (all-zero stoichiometry, Q = 1): observed, DESIGN section 9, outside this contract",
+                    "at least one equilibrium: NumSysLin.f / NumSysSquare.f refuse a system without equilibria (broadcast error), NumSysLog.f gives the conservation rows: observed, DESIGN section 9",
+                    "integer-typed numpy states (and 2-D symbolic batches) are refused by equilibrium_quotient (numpy: negative integer powers of integers / object into float64): a refusal, required only never to produce another number"],
 }
 EQ = "chempy._eqsys"
 
@@ -31,7 +36,43 @@ HAND = {
     "complex": {"keys": [0, 6, 7, 16, 17, 26],
                 "B": [[3, -1, 2, 1, -1], [0, 1, 1, 2, 0], [0, 1, 1, 2, 0], [0, 1, 1, 2, 0], [0, 0, 0, 0, 1], [1, 0, 1, 1, 0]],
                 "A": [[-1, -1, 1, 0, 0], [0, -1, -1, 1, 0], [-1, -2, 0, 1, 0]]},
+    # the two further systems of `rref_systems()` (row-reduction harnesses only)
+    "two_step_complexation": {"keys": [0, 6, 7, 16, 17, 26],
+                              "B": [[3, -1, 2, 1, -1], [0, 1, 1, 2, 0], [0, 1, 1, 2, 0], [0, 1, 1, 2, 0], [0, 0, 0, 0, 1], [1, 0, 1, 1, 0]],
+                              "A": [[-1, -1, 1, 0, 0], [0, -1, -1, 1, 0]]},
+    "ozone": {"keys": [8], "B": [[1, 2, 3]], "A": [[-2, 1, 0], [-3, 0, 1]]},
 }
+
+
+def rref_systems():
+    """the systems of the row-reduction harnesses: those of `systems()` plus
+    - the complexation WITHOUT its (linearly dependent) third reaction: independent reactions, a spectator (Cl-) and linearly dependent conservation
+      relations (C, N, S rows equal), so that rref_equil=True is exercised on it outside the known finding F-C07a;
+    - 2 O = O2, 3 O = O3: the reduced stoichiometry has fractional exponents ([[1,0,-1/3],[0,1,-2/3]]) and pivots that are not +-1"""
+    d = dict(systems())
+    d["two_step_complexation"] = (d["complex"][0], d["complex"][1][:2])
+    d["ozone"] = (["O", "O2", "O3"], [({"O": 2}, {"O2": 1}), ({"O": 3}, {"O3": 1})])
+    return d
+
+
+def _same_matrix(got, want):
+    """value equality of two integer matrices, entry by entry (no truncation of a fractional entry, no dependence on the container or number type)"""
+    got = [list(r) for r in got]
+    return len(got) == len(want) and all(len(g) == len(w) and all(bool(x == y) for x, y in zip(g, w)) for g, w in zip(got, want))
+
+
+def _hand_relations_in_reported_order(eqsys, name):
+    """[(key, hand-written row)] in the order in which the system itself lists its conservation relations.  The ORDER of the conservation rows is
+    not part of the property, their content is: every expected row comes from HAND; the object only says where it put which key.  If the object's
+    keys are not exactly the hand-written ones the hand-written order is used (and `system_reports_the_hand_written_conservation_relations` fails)"""
+    hand = dict(zip(HAND[name]["keys"], HAND[name]["B"]))
+    try:
+        reported = list(eqsys.composition_balance_vectors()[1])
+    except Exception:
+        reported = []
+    if sorted(reported) != sorted(hand) or len(reported) != len(hand):
+        reported = list(HAND[name]["keys"])
+    return [(k, hand[k]) for k in reported]
 
 
 def build(v, name):
@@ -68,8 +109,14 @@ def _residual(name):
         y = [v.real("y_" + s, lo=1e-6, hi=10) for s in subs]
         y0 = [v.real("y0_" + s, lo=0, hi=10) for s in subs]
         conc = dict(zip(subs, y))
-        B, keys = HAND[name]["B"], HAND[name]["keys"]          # the specification's own matrices, not the object's
-        v.prove("system_reports_the_hand_written_conservation_relations", [list(map(int, row)) for row in eqsys.composition_balance_vectors()[0]] == B and list(eqsys.composition_balance_vectors()[1]) == keys)
+        # the specification's own matrices, not the object's.  The object must report the same relations (same key -> same row; the order in which
+        # it lists them is its own business, the residual rows below are matched to the hand-written rows through the reported key order)
+        rep_rows, rep_keys = eqsys.composition_balance_vectors()
+        hand = dict(zip(HAND[name]["keys"], HAND[name]["B"]))
+        v.prove("system_reports_the_hand_written_conservation_relations", sorted(rep_keys) == HAND[name]["keys"] and len(rep_rows) == len(rep_keys)
+                and all(_same_matrix([row], [hand.get(k, [])]) for k, row in zip(rep_keys, rep_rows)))
+        rel = _hand_relations_in_reported_order(eqsys, name)
+        keys, B = [k for k, _r in rel], [_r for _k, _r in rel]
         nr, nk = len(eqs), len(keys)
         params = list(y0) + list(Ks)
         cons = [sum(B[c][j] * (y[j] - y0[j]) for j in range(len(subs))) for c in range(nk)]
@@ -103,7 +150,7 @@ def _residual(name):
         flog = v.call(NumSysLog(eqsys, backend=be).f, ly, params)
         v.prove("log.length", len(flog) == nr + nk)
         A = HAND[name]["A"]
-        v.prove("system_reports_the_hand_written_stoichiometry", [list(map(int, row)) for row in eqsys.stoichs()] == A)
+        v.prove("system_reports_the_hand_written_stoichiometry", _same_matrix(eqsys.stoichs(), A))
         for i in range(nr):
             v.prove_identity("log.equil_%d" % i, flog[i], sum(int(A[i][j]) * ly[j] for j in range(len(subs))) - be.log(Ks[i]))
         for c in range(nk):
@@ -155,7 +202,8 @@ def _(v):
     y0a = [v.real("y0a_" + s, lo=0, hi=10) for s in subs]
     y0b = [v.real("y0b_" + s, lo=0, hi=10) for s in subs]
     conc = dict(zip(subs, y))
-    B, keys = eqsys.composition_balance_vectors()
+    rel = _hand_relations_in_reported_order(eqsys, "ammonia")           # expected rows from HAND (checked against the object in residuals.ammonia), not from the object
+    keys, B = [k for k, _r in rel], [_r for _k, _r in rel]
     nr = len(eqs)
     ns = NumSysLin(eqsys, backend=math)
     v.call(ns.f, y, list(y0a) + list(Ks))
@@ -168,7 +216,7 @@ def _(v):
     nl = NumSysLog(eqsys, backend=be)
     v.call(nl.f, y, list(y0a) + list(Ks))
     g2 = v.call(nl.f, y, list(y0b) + list(K2))
-    A = eqsys.stoichs()
+    A = HAND["ammonia"]["A"]
     for i in range(nr):
         v.prove_identity("log.second_call_uses_current_constants_%d" % i, g2[i], sum(int(A[i][j]) * y[j] for j in range(len(subs))) - be.log(K2[i]))
     # constants taken from the system itself when no parameters are passed (new_eq_params=False): all ns initial concentrations are used
@@ -183,7 +231,7 @@ def _(v):
 def _exact_equilibrium(name):
     """a consistent set of constants and an exact equilibrium state of the named system, with an initial state linked to it by reaction extents"""
     from fractions import Fraction as Fr
-    subs, eqs = systems()[name]
+    subs, eqs = rref_systems()[name]
     y = dict(zip(subs, [Fr(3, 2), Fr(1, 4), Fr(2, 5), Fr(7, 10), Fr(9, 8)]))
     Ks = [spec_Q(eqs, y, i) for i in range(len(eqs))]
     xi = [Fr(1, 10), Fr(-1, 20), Fr(1, 50)][:len(eqs)]
@@ -197,108 +245,352 @@ def _exact_equilibrium(name):
     return subs, eqs, y, y0, Ks
 
 
-def _rref(name, known_dependent):
+def _violating_states(name, y):
+    """states (exact fractions) that violate exactly ONE of the two conditions of the property, derived from the hand-written A and B only:
+    - 'quotient': for each reaction i the state y + nu_i/100.  It carries the same amount of every element and charge (B nu_i = 0), and
+      d ln Q_i / dt = sum_j nu_ij^2 / c_j > 0, so Q_i != K_i;
+    - 'conservation': for each basis vector w of the integer null space of A the state c_j * 2^(w_j).  Every quotient is multiplied by 2^((A w)_i) = 1;
+      the element/charge totals differ (checked with the hand-written B; if they did not, the state would be a second equilibrium with the same
+      totals, which does not exist)"""
+    import sympy
+    from fractions import Fraction as Fr
+    subs, _eqs = rref_systems()[name]
+    A, B = HAND[name]["A"], HAND[name]["B"]
+    assert all(sum(b * n for b, n in zip(row, nu)) == 0 for row in B for nu in A)
+    quot = []
+    for nu in A:
+        st = {s: y[s] + Fr(n, 100) for s, n in zip(subs, nu)}
+        assert all(val > 0 for val in st.values())
+        quot.append(st)
+    cons = []
+    for w in sympy.Matrix(A).nullspace():
+        w = w * sympy.ilcm(*[sympy.Rational(x).q for x in w])
+        assert all(sum(a * int(x) for a, x in zip(row, w)) == 0 for row in A)
+        st = {s: y[s] * Fr(2) ** int(x) for s, x in zip(subs, w)}
+        assert any(sum(b * (st[s] - y[s]) for b, s in zip(row, subs)) != 0 for row in B)
+        cons.append(st)
+    assert quot and cons
+    return quot, cons
+
+
+def _rref(name, neg_sqrt):
     @harness("C07", "row_reduced_configurations." + name, functions=[EQ + ":NumSysLin.f", EQ + ":NumSysLog.f", EQ + ":NumSysSquare.f", EQ + ":_NumSys._get_A_ks", "chempy.equilibria:EqSystem.stoichs_constants",
                                                                      "pyneqsys.symbolic:linear_rref / linear_exprs (external, run natively)"], kind="data")
     def _(v):
         """'with or without row-reduction of the equilibrium or conservation blocks': every configuration, built the way the root finder builds it
         (sympy backend, symbolic parameters), evaluated at an exact equilibrium state reached from the initial state by reaction extents: every
-        residual is zero; at a state with one concentration changed some residual is not; the number of equations is reactions + conservation
-        relations (independent ones when row-reduced)"""
+        residual is zero; at a state with one concentration changed, at conserving states that violate one quotient, and at states that keep every
+        quotient but not the element totals, some residual is not; no independent equation is lost (the Jacobian at the equilibrium state has the rank
+        of the unreduced system, rank A + rank B); the number of equations is reactions + conservation relations (independent ones when row-reduced).
+        All expected numbers come from the hand-written A and B (HAND), none from the object under test"""
         import itertools
+        import numpy as np
         import sympy
         from chempy.chemistry import Equilibrium, Species
         from chempy.equilibria import EqSystem
         from chempy import _eqsys as E
         from collections import OrderedDict
         subs, eqs, y, y0, Ks = _exact_equilibrium(name)
-        es = EqSystem([Equilibrium(r, p, K) for (r, p), K in zip(eqs, Ks)], OrderedDict((k, Species.from_formula(k)) for k in subs))
-        B, keys = es.composition_balance_vectors()
-        rankB = sympy.Matrix(B).rank()
+        quot_states, cons_states = _violating_states(name, y)
+        try:
+            es = EqSystem([Equilibrium(r, p, K) for (r, p), K in zip(eqs, Ks)], OrderedDict((k, Species.from_formula(k)) for k in subs))
+        except Exception as ex:
+            v.fail("system_builds", repr(ex)[:200])
+            return
+        nkeys = len(HAND[name]["keys"])
+        rankB = sympy.Matrix(HAND[name]["B"]).rank()
+        rankA = sympy.Matrix(HAND[name]["A"]).rank()
         ys = sympy.symbols("y:%d" % len(subs))
         ps = sympy.symbols("p:%d" % (len(subs) + len(eqs)))
         bind_p = dict(zip(ps, [sympy.Rational(y0[s].numerator, y0[s].denominator) for s in subs] + [sympy.Rational(K.numerator, K.denominator) for K in Ks]))
         R = lambda q: sympy.Rational(q.numerator, q.denominator)
-        transforms = {"NumSysLin": lambda c: R(c), "NumSysLog": lambda c: sympy.log(R(c)), "NumSysSquare": lambda c: sympy.sqrt(R(c))}
+        # square-root variables: either sign of z stands for the concentration z^2; the systems with neg_sqrt use alternating signs
+        sgn = lambda j: -1 if (neg_sqrt and j % 2 == 0) else 1
+        transforms = {"NumSysLin": lambda c, j: R(c), "NumSysLog": lambda c, j: sympy.log(R(c)), "NumSysSquare": lambda c, j: sgn(j) * sympy.sqrt(R(c))}
         for cls_name, re_, rp in itertools.product(("NumSysLin", "NumSysLog", "NumSysSquare"), (False, True), (False, True)):
             tag = "%s.rref_equil_%s.rref_preserv_%s" % (cls_name, re_, rp)
-            ns = getattr(E, cls_name)(es, backend=sympy, rref_equil=re_, rref_preserv=rp)
             try:
+                ns = getattr(E, cls_name)(es, backend=sympy, rref_equil=re_, rref_preserv=rp)
                 f = list(ns.f(ys, ps))
             except Exception as ex:
                 v.fail(tag + ".builds", repr(ex)[:200])
                 continue
-            at_eq = dict(zip(ys, [transforms[cls_name](y[s]) for s in subs]))
-            vals = [sympy.simplify(sympy.expand_log(e.subs(bind_p).subs(at_eq), force=True)) for e in f]
-            n_cons = rankB if rp else len(keys)
-            n_eq = sympy.Matrix(es.stoichs()).rank() if re_ else len(eqs)
-            v.prove(tag + ".number_of_equations", len(f) == n_eq + n_cons, detail="%d equations, expected %d + %d" % (len(f), n_eq, n_cons))
-            v.prove(tag + ".vanishes_at_the_equilibrium_state", all(abs(complex(sympy.N(x, 30))) < 1e-20 for x in vals), detail=str([str(sympy.N(x, 6)) for x in vals]))
-            off = dict(y)
-            off[subs[1]] = off[subs[1]] * 2
-            at_off = dict(zip(ys, [transforms[cls_name](off[s]) for s in subs]))
-            vals_off = [sympy.N(e.subs(bind_p).subs(at_off), 30) for e in f]
-            v.prove(tag + ".nonzero_off_equilibrium", any(abs(complex(x)) > 1e-6 for x in vals_off))
+            try:
+                at = lambda state: dict(zip(ys, [transforms[cls_name](state[s], j) for j, s in enumerate(subs)]))
+                num = lambda state: [complex(sympy.N(e.subs(bind_p).subs(at(state)), 30)) for e in f]
+                vals = [sympy.simplify(sympy.expand_log(e.subs(bind_p).subs(at(y)), force=True)) for e in f]
+                n_cons = rankB if rp else nkeys
+                # equilibrium block: the statement counts the reactions; a row-reduced block of linearly dependent reactions has rank A non-trivial
+                # rows, and may or may not keep the trivial ones (0 = 0): both are accepted, `no_independent_equation_lost` guards the lower end
+                n_eq_ok = (rankA <= len(f) - n_cons <= len(eqs)) if re_ else (len(f) - n_cons == len(eqs))
+                v.prove(tag + ".number_of_equations", n_eq_ok, detail="%d equations, expected %s + %d" % (len(f), ("%d..%d" % (rankA, len(eqs))) if re_ else len(eqs), n_cons))
+                v.prove(tag + ".vanishes_at_the_equilibrium_state", all(abs(complex(sympy.N(x, 30))) < 1e-20 for x in vals), detail=str([str(sympy.N(x, 6)) for x in vals]))
+                off = dict(y)
+                off[subs[1]] = off[subs[1]] * 2
+                v.prove(tag + ".nonzero_off_equilibrium", any(abs(x) > 1e-6 for x in num(off)))
+                v.prove(tag + ".nonzero_when_only_a_quotient_is_violated", all(any(abs(x) > 1e-6 for x in num(st)) for st in quot_states),
+                        detail=str([max(abs(x) for x in num(st)) for st in quot_states]))
+                v.prove(tag + ".nonzero_when_only_conservation_is_violated", all(any(abs(x) > 1e-6 for x in num(st)) for st in cons_states),
+                        detail=str([max(abs(x) for x in num(st)) for st in cons_states]))
+                # only-at, to first order: at the equilibrium state the Jacobian of the unreduced linear system is [A diag(1/c); B]; its two blocks
+                # span complementary row spaces (a'A diag(1/c) = b'B implies a'A diag(1/c) A'a = b'B A'a = 0, so A'a = 0), so the rank is rank A + rank B;
+                # row reduction is an invertible operation on the independent rows and the log / square variables multiply by an invertible diagonal
+                # matrix, so every configuration has this rank.  A reduction that turns an independent equation into 0 = 0 has a smaller one
+                J = sympy.Matrix(f).jacobian(ys).subs(bind_p).subs(at(y))
+                Jn = np.array([[complex(sympy.N(e, 30)) for e in J.row(i)] for i in range(J.rows)])
+                sv = np.linalg.svd(Jn, compute_uv=False)
+                rank = int(np.sum(sv > 1e-9 * sv[0])) if len(sv) else 0
+                v.prove(tag + ".no_independent_equation_lost", rank == rankA + rankB, detail="rank of the Jacobian at equilibrium %d, expected %d + %d (singular values %s)" % (rank, rankA, rankB, np.round(sv, 6)))
+            except Exception as ex:
+                v.fail(tag + ".evaluates", repr(ex)[:200])
     return _
 
 
 _rref("ammonia", False)
-_rref("complex", True)
+_rref("complex", False)
+_rref("two_step_complexation", True)
+_rref("ozone", True)
+
+
+def _offered(name, neg_sqrt):
+    @harness("C07", "offered_to_the_root_finder." + name, functions=["chempy.equilibria:EqSystem.get_neqsys", "chempy.equilibria:EqSystem.get_neqsys_static_conditions", "chempy.equilibria:EqSystem.get_neqsys_chained_conditional",
+                                                                     "chempy.equilibria:EqSystem.get_neqsys_conditional_chained", "chempy.equilibria:EqSystem._SymbolicSys_from_NumSys",
+                                                                     "pyneqsys.symbolic:SymbolicSys.from_callback (external, run natively)"], kind="data")
+    def _(v):
+        """'each residual formulation OFFERED TO THE ROOT FINDER ... with or without row-reduction': the systems of equations that EqSystem.get_neqsys
+        hands to pyneqsys (not formulation objects built by the checker) are evaluated through the callback the solver uses, in the solver's own
+        variables (c, ln c, +-sqrt c): number of equations, zero at the exact equilibrium state, non-zero at the states that violate only a quotient
+        or only conservation, and -- so that the formulation and the two reduction switches asked for are the ones delivered -- the same residuals
+        (as a multiset) as the formulation of `row_reduced_configurations` in that configuration at an off-equilibrium state"""
+        import itertools
+        import numpy as np
+        import sympy
+        from chempy.chemistry import Equilibrium, Species
+        from chempy.equilibria import EqSystem
+        from chempy import _eqsys as E
+        from collections import OrderedDict
+        subs, eqs, y, y0, Ks = _exact_equilibrium(name)
+        quot_states, cons_states = _violating_states(name, y)
+        ns_, nr = len(subs), len(eqs)
+        nkeys = len(HAND[name]["keys"])
+        rankB = sympy.Matrix(HAND[name]["B"]).rank()
+        assert sympy.Matrix(HAND[name]["A"]).rank() == nr          # independent reactions: the equilibrium block has nr rows, reduced or not
+        try:
+            es = EqSystem([Equilibrium(r, p, float(K)) for (r, p), K in zip(eqs, Ks)], OrderedDict((k, Species.from_formula(k)) for k in subs))
+        except Exception as ex:
+            v.fail("system_builds", repr(ex)[:200])
+            return
+        params = np.array([float(y0[s]) for s in subs] + [float(K) for K in Ks])
+        sgn = np.array([-1.0 if (neg_sqrt and j % 2 == 0) else 1.0 for j in range(ns_)])
+        to_x = {"NumSysLin": lambda c: c, "NumSysLog": np.log, "NumSysSquare": lambda c: sgn * np.sqrt(c)}
+        conc = lambda state: np.array([float(state[s]) for s in subs])
+        off = dict(y)
+        off[subs[1]] = off[subs[1]] * 2
+        ys = sympy.symbols("y:%d" % ns_)
+        ps = sympy.symbols("p:%d" % (ns_ + nr))
+
+        def first_system(neqsys, kind):
+            # homogeneous system: no phase-transfer reaction, hence the empty tuple of conditions
+            if kind == "static_conditions":
+                return neqsys.neqsystems[0]
+            if kind == "chained_conditional":
+                return neqsys.neqsystems[0].neqsys_factory(())
+            return neqsys.neqsys_factory(()).neqsystems[0]
+        all12 = list(itertools.product(("NumSysLin", "NumSysLog", "NumSysSquare"), (False, True), (False, True)))
+        plan = [("static_conditions", cfg) for cfg in all12]
+        if name == "ammonia":
+            plan += [(kind, cfg) for kind in ("chained_conditional", "conditional_chained") for cfg in (("NumSysLog", True, False), ("NumSysSquare", False, True))]
+        for kind, (cls_name, re_, rp) in plan:
+            tag = "%s.%s.rref_equil_%s.rref_preserv_%s" % (kind, cls_name, re_, rp)
+            try:
+                sy = first_system(es.get_neqsys(kind, NumSys=(getattr(E, cls_name),), rref_equil=re_, rref_preserv=rp), kind)
+                res = lambda state: np.asarray(sy.f_cb(to_x[cls_name](conc(state)), params), dtype=float)
+                n_cons = rankB if rp else nkeys
+                v.prove(tag + ".number_of_equations", sy.nf == nr + n_cons and len(res(y)) == nr + n_cons, detail="%d equations, expected %d + %d" % (sy.nf, nr, n_cons))
+                v.prove(tag + ".vanishes_at_the_equilibrium_state", bool(np.all(np.abs(res(y)) < 1e-11)), detail=repr(res(y)))
+                v.prove(tag + ".nonzero_when_only_a_quotient_is_violated", all(np.max(np.abs(res(st))) > 1e-6 for st in quot_states))
+                v.prove(tag + ".nonzero_when_only_conservation_is_violated", all(np.max(np.abs(res(st))) > 1e-6 for st in cons_states))
+                direct = getattr(E, cls_name)(es, backend=sympy, rref_equil=re_, rref_preserv=rp).f(ys, ps)
+                bind = dict(zip(ps, params))
+                bind.update(zip(ys, to_x[cls_name](conc(off))))
+                want = sorted(float(sympy.N(e.subs(bind))) for e in direct)
+                got = sorted(res(off))
+                v.prove(tag + ".is_the_configuration_asked_for", len(got) == len(want) and np.allclose(got, want, rtol=1e-9, atol=1e-12), detail="%r instead of %r" % (got, want))
+            except Exception as ex:
+                v.fail(tag + ".evaluates", repr(ex)[:200])
+        # several formulations: one system per formulation, in the order given
+        try:
+            ch = es.get_neqsys("static_conditions", NumSys=(E.NumSysLog, E.NumSysLin), rref_preserv=True).neqsystems
+            r0 = np.asarray(ch[0].f_cb(np.log(conc(y)), params), dtype=float)
+            r1 = np.asarray(ch[1].f_cb(conc(y), params), dtype=float)
+            v.prove("chain_keeps_the_formulations_in_the_order_given", len(ch) == 2 and len(r0) == len(r1) == nr + rankB and bool(np.all(np.abs(r0) < 1e-11) and np.all(np.abs(r1) < 1e-11)), detail=repr((r0, r1)))
+        except Exception as ex:
+            v.fail("chain_keeps_the_formulations_in_the_order_given", repr(ex)[:200])
+    return _
+
+
+_offered("ammonia", False)
+_offered("ozone", True)
+
+
+@harness("C07", "species_written_with_the_aqueous_suffix", functions=["chempy.reactionsystem:ReactionSystem.stoichs", "chempy.equilibria:EqSystem.equilibrium_quotients", EQ + ":NumSysLin.f", EQ + ":NumSysLog.f"], kind="data")
+def _(v):
+    """'homogeneous equilibria over formula-defined species': the same water/ammonia system with its solutes spelled H+(aq), OH-(aq), ... is the same
+    system: hand-written stoichiometry and conservation relations, quotients of the exact state, residuals zero there and non-zero next to it"""
+    from chempy.chemistry import Equilibrium, Species
+    from chempy.equilibria import EqSystem
+    from chempy import _eqsys as E
+    from collections import OrderedDict
+    subs, eqs, y, y0, Ks = _exact_equilibrium("ammonia")
+    aq = lambda k: k if k == "H2O" else k + "(aq)"
+    try:
+        es = EqSystem([Equilibrium({aq(k): n for k, n in r.items()}, {aq(k): n for k, n in p.items()}, float(K)) for (r, p), K in zip(eqs, Ks)], OrderedDict((aq(k), Species.from_formula(aq(k))) for k in subs))
+        A = es.stoichs()
+        rows, keys = es.composition_balance_vectors()
+        qs = [float(q) for q in es.equilibrium_quotients([float(y[s]) for s in subs])]
+        params = [float(y0[s]) for s in subs] + [float(K) for K in Ks]
+        quot_states, cons_states = _violating_states("ammonia", y)
+        lin = lambda st: [float(x) for x in E.NumSysLin(es, backend=math).f([float(st[s]) for s in subs], params)]
+        log = lambda st: [float(x) for x in E.NumSysLog(es, backend=math).f([math.log(st[s]) for s in subs], params)]
+        at, near = [lin(y), log(y)], [f(st) for f in (lin, log) for st in quot_states + cons_states]
+    except Exception as ex:
+        for nm in ("stoichiometry_and_conservation_relations", "quotients", "residuals"):
+            v.fail(nm, repr(ex)[:200])
+        return
+    hand = dict(zip(HAND["ammonia"]["keys"], HAND["ammonia"]["B"]))
+    v.prove("stoichiometry_and_conservation_relations", _same_matrix(A, HAND["ammonia"]["A"]) and sorted(keys) == sorted(hand) and all(_same_matrix([row], [hand[k]]) for k, row in zip(keys, rows)),
+            detail=repr((A, rows, keys)))
+    v.prove("quotients", len(qs) == 2 and all(abs(q - float(K)) <= 1e-14 * float(K) for q, K in zip(qs, Ks)), detail=repr(qs))
+    v.prove("residuals", all(len(r) == 2 + 4 and max(abs(x) for x in r) < 1e-12 for r in at) and all(max(abs(x) for x in r) > 1e-6 for r in near), detail=repr(at))
+
+
+@harness("C07", "constants_of_any_magnitude", functions=[EQ + ":NumSysLin.f", EQ + ":NumSysLog.f", EQ + ":NumSysSquare.f"], kind="data")
+def _(v):
+    """'for every equilibrium system ... all positive equilibrium states': the symbolic harnesses bound K to [1e-3, 1e3]; here the water/ammonia
+    system at a dilute exact state whose NUMERIC constants are 1.8e-27 and 3e-18 (by hand: 1e-12 * 1e-13 / 55 and 3e-15 * 1e-12 / 1e-9): every
+    formulation is zero there (to rounding) and not at the state with [H+] doubled"""
+    from fractions import Fraction as Fr
+    from chempy.chemistry import Equilibrium, Species
+    from chempy.equilibria import EqSystem
+    from chempy import _eqsys as E
+    from collections import OrderedDict
+    subs, eqs = systems()["ammonia"]
+    y = dict(zip(subs, [Fr(55), Fr(1, 10 ** 12), Fr(1, 10 ** 13), Fr(1, 10 ** 9), Fr(3, 10 ** 15)]))
+    Ks = [float(spec_Q(eqs, y, i)) for i in range(len(eqs))]
+    assert abs(Ks[0] - 1e-25 / 55) < 1e-40 and abs(Ks[1] - 3e-18) < 1e-32
+    c = [float(y[s]) for s in subs]
+    off = [c[0], 2 * c[1]] + c[2:]
+    to_x = {"NumSysLin": lambda st: st, "NumSysLog": lambda st: [math.log(x) for x in st], "NumSysSquare": lambda st: [-math.sqrt(x) for x in st]}
+    for cls_name in ("NumSysLin", "NumSysLog", "NumSysSquare"):
+        try:
+            es = EqSystem([Equilibrium(r, p, K) for (r, p), K in zip(eqs, Ks)], OrderedDict((k, Species.from_formula(k)) for k in subs))
+            ns = getattr(E, cls_name)(es, backend=math)
+            at = [float(x) for x in ns.f(to_x[cls_name](c), c + Ks)]
+            near = [float(x) for x in ns.f(to_x[cls_name](off), c + Ks)]
+        except Exception as ex:
+            v.fail(cls_name + ".zero_at_and_nonzero_next_to_the_state", repr(ex)[:200])
+            continue
+        v.prove(cls_name + ".zero_at_and_nonzero_next_to_the_state", len(at) == 2 + 4 and max(abs(x) for x in at) < 1e-11 and max(abs(x) for x in near) > 0.5, detail=repr((at, near)))
 
 
 @harness("C07", "batches_and_repeated_evaluation", functions=["chempy.chemistry:equilibrium_quotient", "chempy.equilibria:EqSystem.equilibrium_quotients", "chempy.equilibria:EqSystem.stoichs_constants"], kind="data")
 def _(v):
     """a batch of states (2-D array, one state per row) gives the quotient of each state, also when the number of states equals the number of
-    substances; the row-reduced constants are those of the constants handed in at THIS call (same system evaluated at two temperatures)"""
+    substances or is one; integer-valued and symbolic states give the same product of powers (or are refused, never a truncated value); the
+    row-reduced constants are those of the constants handed in at THIS call (same system evaluated at two temperatures) and describe a system
+    EQUIVALENT to the original one (same row space, not merely implied by it)"""
     import math
     import numpy as np
     from chempy.chemistry import equilibrium_quotient, Equilibrium, Species
     from chempy.equilibria import EqSystem
     from collections import OrderedDict
+
+    def attempt(fn):
+        try:
+            return fn(), None
+        except Exception as ex:
+            return None, repr(ex)[:200]
     nu = [-1, 2, 1]
     batch = np.array([[2.0, 3.0, 5.0], [7.0, 0.5, 4.0], [1.5, 6.0, 0.25]])          # square on purpose
     want = [row[0] ** -1 * row[1] ** 2 * row[2] for row in batch]
-    got = equilibrium_quotient(batch, nu)
-    v.prove("square_batch_row_by_row", np.allclose(got, want, rtol=1e-14, atol=0) and np.allclose([equilibrium_quotient(row, nu) for row in batch], want, rtol=1e-14, atol=0), detail=repr(got))
+    got, err = attempt(lambda: (equilibrium_quotient(batch, nu), [equilibrium_quotient(row, nu) for row in batch]))
+    v.prove("square_batch_row_by_row", err is None and np.allclose(got[0], want, rtol=1e-14, atol=0) and np.allclose(got[1], want, rtol=1e-14, atol=0), detail=err or repr(got))
     wide = np.array([[2.0, 3.0, 5.0], [7.0, 0.5, 4.0]])
-    v.prove("non_square_batch_row_by_row", np.allclose(equilibrium_quotient(wide, nu), want[:2], rtol=1e-14, atol=0))
+    got, err = attempt(lambda: equilibrium_quotient(wide, nu))
+    v.prove("non_square_batch_row_by_row", err is None and np.shape(got) == (2,) and np.allclose(got, want[:2], rtol=1e-14, atol=0), detail=err or repr(got))
+    got, err = attempt(lambda: equilibrium_quotient(wide[:1], nu))
+    v.prove("batch_of_a_single_state", err is None and np.shape(got) == (1,) and np.allclose(got, want[:1], rtol=1e-14, atol=0), detail=err or repr(got))
+    # integer-valued states: 2 * 3 / 4 = 3/2 by hand (an integer division or an exponent cast would give 1 or 0).  A plain list must work (it does not
+    # carry a dtype); an integer ARRAY may be refused (numpy refuses negative integer powers of integers) but must not give another number
+    got, err = attempt(lambda: equilibrium_quotient([4, 2, 3], [-1, 1, 1]))
+    v.prove("integer_state_as_list", err is None and got == 1.5, detail=err or repr(got))
+    got, err = attempt(lambda: equilibrium_quotient(np.array([4, 2, 3]), [-1, 1, 1]))
+    v.prove("integer_state_as_array_is_exact_or_refused", err is not None or got == 1.5, detail=err or repr(got))
+    got, err = attempt(lambda: equilibrium_quotient(np.array([[4, 2, 3], [8, 2, 1]]), [-1, 1, 1]))
+    v.prove("integer_batch_is_exact_or_refused", err is not None or (np.shape(got) == (2,) and list(got) == [1.5, 0.25]), detail=err or repr(got))
+    # symbolic states: the product of powers itself, or a refusal
+    import sympy
+    a, b, c, d, e, f = sympy.symbols("a b c d e f", positive=True)
+    got, err = attempt(lambda: equilibrium_quotient([a, b, c], nu))
+    v.prove("symbolic_state", err is None and sympy.simplify(got - b ** 2 * c / a) == 0, detail=err or repr(got))
+    got, err = attempt(lambda: equilibrium_quotient(np.array([[a, b, c], [d, e, f]], dtype=object), nu))
+    v.prove("symbolic_batch_is_exact_or_refused", err is not None or (len(got) == 2 and sympy.simplify(got[0] - b ** 2 * c / a) == 0 and sympy.simplify(got[1] - e ** 2 * f / d) == 0), detail=err or repr(got))
     subs, eqs = systems()["ammonia"]
     es = EqSystem([Equilibrium(r, p, K) for (r, p), K in zip(eqs, [1e-14 / 55.5, 5.6e-10])], OrderedDict((k, Species.from_formula(k)) for k in subs))
     sq = np.array([[55.5, 1e-7, 1e-7, 1e-3, 1e-3], [55.4, 2e-7, 3e-7, 2e-3, 1e-3], [50.0, 1e-6, 1e-8, 5e-3, 4e-3], [55.5, 1e-3, 1e-11, 1e-2, 1e-9], [40.0, 3e-7, 3e-7, 1e-4, 2e-3]])
-    qs = es.equilibrium_quotients(sq)
-    ok = all(np.allclose(qs[0], sq[:, 1] * sq[:, 2] / sq[:, 0], rtol=1e-13, atol=0) for _ in [0]) and np.allclose(qs[1], sq[:, 4] * sq[:, 1] / sq[:, 3], rtol=1e-13, atol=0)
-    v.prove("system_quotients_of_as_many_states_as_substances", ok, detail=repr(qs))
-    A1, k1 = es.stoichs_constants(eq_params=[2.0, 3.0], rref=True, backend=math)
-    A2, k2 = es.stoichs_constants(eq_params=[5.0, 7.0], rref=True, backend=math)
-    plain1 = es.stoichs_constants(eq_params=[2.0, 3.0])[1]
+    qs, err = attempt(lambda: es.equilibrium_quotients(sq))
+    ok = err is None and len(qs) == 2 and np.allclose(qs[0], sq[:, 1] * sq[:, 2] / sq[:, 0], rtol=1e-13, atol=0) and np.allclose(qs[1], sq[:, 4] * sq[:, 1] / sq[:, 3], rtol=1e-13, atol=0)
+    v.prove("system_quotients_of_as_many_states_as_substances", ok, detail=err or repr(qs))
+    A0 = np.array(HAND["ammonia"]["A"], dtype=float)          # hand-written stoichiometry (checked against the object in residuals.ammonia)
 
     def consistent(A, ks, Ks):
-        # the reduced system (A', k') must be implied by the original one: for every state with Q_i = K_i, prod c^A'_j = k'_j.  Check on exact solutions
-        # c parametrised by two free log-concentrations: here simply that log k' = M log K with the same row operations M as A' = M A
-        A0 = np.array(es.stoichs(), dtype=float)
-        M = np.linalg.lstsq(A0.T, np.array(A, dtype=float).T, rcond=None)[0].T
-        return np.allclose(M.dot(A0), np.array(A, dtype=float), atol=1e-12) and np.allclose(M.dot(np.log(Ks)), np.log(np.array(ks, dtype=float)), atol=1e-12)
-    v.prove("reduced_constants_follow_the_constants_given", consistent(A1, k1, [2.0, 3.0]) and consistent(A2, k2, [5.0, 7.0]) and list(plain1) == [2.0, 3.0], detail="%r %r" % (k1, k2))
+        # the reduced system (A', k') must be EQUIVALENT to the original one: A' = M A and log k' = M log K with the same row operations M (implied by
+        # it), and M invertible on the row space, i.e. rank A' = rank A (nothing lost: a zero row, or two equal rows, would also be 'implied')
+        A = np.array(A, dtype=float)
+        M = np.linalg.lstsq(A0.T, A.T, rcond=None)[0].T
+        return (np.allclose(M.dot(A0), A, atol=1e-12) and np.allclose(M.dot(np.log(Ks)), np.log(np.array(ks, dtype=float)), atol=1e-12)
+                and np.linalg.matrix_rank(A) == np.linalg.matrix_rank(A0))
+    res, err = attempt(lambda: (es.stoichs_constants(eq_params=[2.0, 3.0], rref=True, backend=math), es.stoichs_constants(eq_params=[5.0, 7.0], rref=True, backend=math),
+                                es.stoichs_constants(eq_params=[2.0, 3.0])[1]))
+    if err is None:
+        (A1, k1), (A2, k2), plain1 = res
+        ok, err = attempt(lambda: consistent(A1, k1, [2.0, 3.0]) and consistent(A2, k2, [5.0, 7.0]) and list(plain1) == [2.0, 3.0])
+    v.prove("reduced_constants_follow_the_constants_given", err is None and bool(ok), detail=err or "%r %r" % (k1, k2))
+    # the checker's own `consistent` must reject reductions that lose an equation (guards the guard)
+    assert not consistent([[1, 0, -1, -1, 1], [0, 0, 0, 0, 0]], [1.5, 1.0], [2.0, 3.0]) and consistent([[1, 0, -1, -1, 1], [0, 1, 0, -1, 1]], [1.5, 3.0], [2.0, 3.0])
 
 
 @harness("C07", "reported_element_totals", functions=["chempy.equilibria:EqSystem.composition_conservation"], kind="data")
 def _(v):
     """the conservation report of an equilibrium system returns the element/charge totals of the state and of the initial state as they are,
-    B c and B c0 in the order of the composition keys: a state that misses conservation by a trace amount (3e-13 of a 4e-13 M total) is reported
-    with different totals, not rounded into agreement"""
+    B c and B c0 under the composition keys it names (B hand-written): a state that misses conservation by a trace amount (3e-13 of a 4e-13 M total)
+    is reported with different totals, not rounded into agreement"""
     import numpy as np
     from chempy.chemistry import Equilibrium
     from chempy.equilibria import EqSystem
     from chempy.chemistry import Species
-    subs = [Species.from_formula(k) for k in ("H2O", "H+", "OH-", "NH4+", "NH3")]
-    es = EqSystem([Equilibrium({"H2O": 1}, {"H+": 1, "OH-": 1}, 1e-14 / 55.4), Equilibrium({"NH4+": 1}, {"H+": 1, "NH3": 1}, 10 ** -9.26)], subs)
     c0 = np.array([55.4, 1e-7, 1e-7, 3e-13, 1e-13])
     c = c0 + np.array([0.0, 3e-13, 0.0, -2e-13, -1e-13])            # nitrogen 4e-13 -> 1e-13, charge +1e-13
-    keys, tot, tot0 = es.composition_conservation(c, c0)
-    B, bkeys = es.composition_balance_vectors()
-    B = np.array(B, dtype=float)
-    v.prove("totals_are_B_times_the_state", list(keys) == list(bkeys) and np.array_equal(np.asarray(tot, dtype=float), B.dot(c)) and np.array_equal(np.asarray(tot0, dtype=float), B.dot(c0)),
-            detail=repr((tot, tot0)))
-    iN, iq = list(keys).index(7), list(keys).index(0)
+    try:
+        subs = [Species.from_formula(k) for k in ("H2O", "H+", "OH-", "NH4+", "NH3")]
+        es = EqSystem([Equilibrium({"H2O": 1}, {"H+": 1, "OH-": 1}, 1e-14 / 55.4), Equilibrium({"NH4+": 1}, {"H+": 1, "NH3": 1}, 10 ** -9.26)], subs)
+        keys, tot, tot0 = es.composition_conservation(c, c0)
+        keys, tot, tot0 = list(keys), [float(x) for x in tot], [float(x) for x in tot0]
+    except Exception as ex:
+        v.fail("totals_are_B_times_the_state", repr(ex)[:200])
+        v.fail("trace_violations_stay_visible", repr(ex)[:200])
+        return
+    hand = dict(zip(HAND["ammonia"]["keys"], HAND["ammonia"]["B"]))          # not the object's own composition_balance_vectors()
+
+    def is_total(key, got, state):
+        # sum_j B_kj c_j to within a few units of rounding of the terms (any order or method of summation), not one particular dot product bit by bit
+        terms = [b * x for b, x in zip(hand[key], state)]
+        return abs(got - math.fsum(terms)) <= 8 * 2.3e-16 * math.fsum(abs(t) for t in terms)
+    ok = sorted(keys) == sorted(hand) and len(tot) == len(keys) == len(tot0) and all(is_total(k, t, c) and is_total(k, t0, c0) for k, t, t0 in zip(keys, tot, tot0))
+    v.prove("totals_are_B_times_the_state", ok, detail=repr((keys, tot, tot0)))
+    if 7 not in keys or 0 not in keys:
+        v.fail("trace_violations_stay_visible", "keys reported: %r" % (keys,))
+        return
+    iN, iq = keys.index(7), keys.index(0)
     v.prove("trace_violations_stay_visible", abs((tot[iN] - tot0[iN]) + 3e-13) < 1e-20 + 1e-3 * 3e-13 and abs((tot[iq] - tot0[iq]) - 1e-13) < 2e-16 * 1e-7 + 1e-3 * 1e-13,
             detail=repr((tot[iN] - tot0[iN], tot[iq] - tot0[iq])))
